@@ -28,6 +28,33 @@ res = {}
 skipped = {}
 files = {m.__name__: m.__file__ for m in (SE, CU, AA, PT, IF)}
 
+# which array arguments a kernel writes to: recorded for every direct call (an argument the interpreted source leaves alone
+# must not be written by the compiled one, e.g. a rebinding `x = ...` of an array argument that becomes `x(:) = ...`)
+modified = {}
+
+
+def _watch(M, fname, fn):
+    def w(*a, **k):
+        if sys._getframe(1).f_globals.get('__name__') != '__main__':
+            return fn(*a, **k)          # a kernel called by another kernel or by a class: internal to the interpreted source
+        pre = [(i, np.array(x, copy=True)) for i, x in enumerate(a) if isinstance(x, np.ndarray)]
+        r = fn(*a, **k)
+        for i, x0 in pre:
+            if x0.tobytes() != np.ascontiguousarray(a[i]).tobytes():
+                modified.setdefault('%s.%s' % (M.__name__.split('.')[-1], fname), set()).add(i)
+        return r
+    return w
+
+
+for _M in (SE, CU, AA, PT, IF):
+    for _n in dir(_M):
+        _f = getattr(_M, _n)
+        if not _n.startswith('_') and callable(_f) and not isinstance(_f, type) and getattr(_f, '__module__', None) in (_M.__name__, None):
+            try:
+                setattr(_M, _n, _watch(_M, _n, _f))
+            except Exception:
+                pass
+
 
 def put(name, *arrs):
     res[name] = [np.array(a, copy=True) for a in arrs]
@@ -269,4 +296,4 @@ for cubic in (True, False):
                     continue
                 put('pol_%s_%s_%s_%s' % (cubic, explicit, nul, dt), f2, pa._endPts_k2_q.copy(), pa._endPts_k2_r.copy())
 
-pickle.dump({'files': files, 'results': res, 'skipped': skipped}, open(outp, 'wb'))
+pickle.dump({'files': files, 'results': res, 'skipped': skipped, 'modified': {k: sorted(v) for k, v in modified.items()}}, open(outp, 'wb'))
